@@ -221,6 +221,48 @@ func genSplit(g *genCtx) {
 		}
 	}
 	if g.part == "limit" {
+		// UCS-2 characters whose LOW octet is 0x1B (U+041B, U+4E1B) around the cuts: 0x1B means nothing in UCS-2
+		for _, p := range plans {
+			if p.per != 134 || !(p.req == 8 || p.req == 9) {
+				continue
+			}
+			for _, cu := range []int{65, 66, 67, 132, 133, 134} { // character index (two octets each)
+				for _, ch := range []int{0x041B, 0x4E1B, 0x1B1B} {
+					t := make([]int, 150)
+					for i := range t {
+						t[i] = int(p.filler[i%len(p.filler)])
+					}
+					t[cu] = ch
+					emit(Case{"k": "split", "proto": p.proto, "req": p.req, "ref": 6, "text": t})
+				}
+			}
+		}
+		// packed GSM-7: the last part has 8n septets and the text ends in '@' / CR, the part before it ends in an
+		// extension character that lies wholly inside it
+		for _, p := range plans {
+			if !(p.proto == "smpp" && p.req == 99) {
+				continue
+			}
+			for _, n := range []int{8, 16, 24} {
+				for _, last := range []rune{'@', '\r', 'a'} {
+					for _, ext := range []rune{'[', '€', '\f'} {
+						var t []int
+						for i := 0; i < p.per-2; i++ {
+							t = append(t, 'a'+i%3)
+						}
+						t = append(t, int(ext)) // septets per-2, per-1: the part is full, no escape on the cut
+						for i := 0; i < n-1; i++ {
+							t = append(t, 'x')
+						}
+						t = append(t, int(last))
+						emit(Case{"k": "split", "proto": p.proto, "req": p.req, "ref": 8, "text": t})
+						// ... and three parts
+						t3 := append(append([]int{}, t[:p.per]...), t...)
+						emit(Case{"k": "split", "proto": p.proto, "req": p.req, "ref": 8, "text": t3})
+					}
+				}
+			}
+		}
 		// a few parts with a multi-unit character straddling every cut INCLUDING the one after which only a little text
 		// follows (whether a part is the last one is not known before the earlier cuts have moved)
 		for _, p := range plans {
